@@ -16,7 +16,9 @@ META = dict(
           "(TwoPointLinearDamper, MobilityLinearDamper) PE is 0 and power <= 0. All real states and parameters (k,c,d >= 0); the time derivative of PE is obtained by running "
           "the real calcPotentialEnergy on dual numbers along an arbitrary rigid motion. Force::LinearBushing (agent-built part_bushing): power of the applied body forces == f . qdot == "
           "-(d/dt PE) - sum c_i qdot_i^2 with PE = 1/2 sum k_i q_i^2, the code's qdot proved to be the true d/dt of its q (x-y-z angles of R_FM, p_FM in F), away from cos(q1)=0. "
-          "Contact elements, cable spring are not covered."),
+          "ElasticFoundationForce (part_c12_ef): ONE foundation spring of the real processContact, mesh on an arbitrarily moving body against a Ground-fixed half-space "
+          "(assumed geometry contract), every branch: power + d/dt PE == 0 without damping and friction, reported PE == k (areaScale A) depth^2/2, and the dissipation term <= 0 on the "
+          "friction-free branches (sign with friction active not decided). Other contact elements, cable spring are not covered."),
     note="Assumes real arithmetic, the mocked matter API contracts (listed), qdot==u for the mobility elements; trusts z3/cvc5, transliterator rules, symlib shim.",
     technique="symbolic execution of transliterated real code on dual numbers over the reals + SMT (z3 QF_NRA)",
     design_ref="4 C12/C13")
@@ -118,11 +120,14 @@ def main(ctx):
     for a in FL.world_assumptions(): ctx.assume(a)
     ctx.assume("body orientations enter as arbitrary 3x3 matrices (superset of rotations): the power identities proved do not need orthonormality")
     ctx.assume("constant-force elements (TwoPointConstantForce, ConstantForce, ConstantTorque, MobilityConstantForce) and GlobalDamper are documented as not contributing potential energy and are outside the property's antecedent; they are not checked here")
+    import part_c12_ef
+    part_c12_ef.run(ctx)          # one ElasticFoundation spring against a Ground-fixed half-space (added after seed C12-m2 was missed)
     import part_bushing
     part_bushing.c12_part(ctx)
-    ctx.not_decided += ["HuntCrossleyForce, ElasticFoundationForce, CompliantContactSubsystem, ExponentialSpringForce, CableSpring", "GlobalDamper (power = -c|u|^2 needs the whole u vector; trivial but not built)"]
+    ctx.not_decided += ["HuntCrossleyForce, CompliantContactSubsystem, ExponentialSpringForce, CableSpring", "GlobalDamper (power = -c|u|^2 needs the whole u vector; trivial but not built)"]
     ctx.explanation = "%d functions under contract; %d obligations." % (len(ctx.functions), len(ctx.obligations))
-    return ctx.finish(replayer=lambda ob: part_bushing.replay(ctx, ob) if (ob.unit or "").startswith("bushing.") else replay(ctx, ob))
+    return ctx.finish(replayer=lambda ob: part_bushing.replay(ctx, ob) if (ob.unit or "").startswith("bushing.") else
+                      (part_c12_ef.replay(ctx, ob) if (ob.unit or "").startswith("elasticfoundation.") else replay(ctx, ob)))
 
 
 _EXE = {}
